@@ -13,7 +13,7 @@ From SioV Require Import Base.Conc Sio.Pipeline.
 From SioV Require Import Sio.HandlerStore.
 From SioV Require Import Sio.Json Sio.Header Sio.Binary.
 From SioV Require Sio.Codec Sio.DecodeProofs.
-From SioV Require Import Sio.EndToEnd Sio.EndToEndInst Sio.EndToEndReal Sio.EndToEndSched Sio.EndToEndRegistry Sio.EndToEndBytes Sio.EndToEndFeeders.
+From SioV Require Import Sio.EndToEnd Sio.EndToEndInst Sio.EndToEndReal Sio.EndToEndSched Sio.EndToEndRegistry Sio.EndToEndBytes Sio.EndToEndFeeders Sio.EndToEndConnect.
 
 Section C01.
   (** C09/C10: Socket.IO codec. One packet = header frame + attachments; an idle decoder fed the
@@ -516,3 +516,36 @@ Theorem C01_dispatch_releasing_decode_refuted :
          = [Ok [BBin [7%N; 8%N]]; other]
        /\ other <> Ok [BBin [7%N; 8%N]].
 Proof. exact dispatch_release_refuted. Qed.
+
+(** * The client's receive buffer around the CONNECT reply (onEvent / onConnect / emitBuffered;
+    model Sio/EndToEndConnect.v): events that reach a socket that is not connected yet are parked
+    and replayed - handler after handler, user code of arbitrary duration - when the reply is
+    processed, while further events keep arriving.  For the code as it is (state = Connected first,
+    then the replay): whatever arrives before ([a0]), between the two control steps ([a1]), at any
+    point of the replay ([segs], [tl]) and after it ([a3]) is handed over exactly once, the parked
+    events in their order, and nothing stays parked. *)
+Theorem C01_connect_window_exactly_once :
+  forall (ev : Type) (a0 a1 : list ev) (segs : list (list ev)) (tl a3 : list ev),
+    length segs = length a0 ->
+    let s := exec ev (init ev) (as_coded ev a0 a1 segs tl a3) in
+    buf ev s = [] /\ blocked ev s = [] /\ snap ev s = None /\
+    log ev s = a1 ++ weave ev segs a0 ++ tl ++ a3 /\
+    Permutation (log ev s) (a0 ++ a1 ++ concat segs ++ tl ++ a3).
+Proof. exact connect_window_exactly_once. Qed.
+
+(** The other order of the two control steps ("flush what was buffered, then mark connected" - a
+    class of breaking change, mutant ind3): everything that arrives during the replay and until the
+    state changes ends up parked after the buffer was cleared and is never read again. *)
+Theorem C01_connect_window_flush_first_strands :
+  forall (ev : Type) (a0 : list ev) (segs : list (list ev)) (tl a2 a3 : list ev),
+    length segs = length a0 ->
+    let s := exec ev (init ev) (flush_first ev a0 segs tl a2 a3) in
+    log ev s = a0 ++ a3 /\ buf ev s = concat segs ++ tl ++ a2.
+Proof. exact connect_window_flush_first_strands. Qed.
+
+Theorem C01_connect_window_flush_first_refuted :
+  exists (a0 : list nat) segs tl a2 a3,
+    length segs = length a0 /\
+    ~ Permutation (log nat (exec nat (init nat) (flush_first nat a0 segs tl a2 a3)))
+                  (a0 ++ concat segs ++ tl ++ a2 ++ a3).
+Proof. exact flush_first_refuted. Qed.
